@@ -8,7 +8,7 @@ from .common import Check, Err, cbool, clist, cnat, cz
 class C20(Check):
     pid = "C20"
     props_file = "Props/C20.v"
-    corr_imports = ["Ecat.Fmmu", "Corr.C20"]
+    corr_imports = ["Ecat.Fmmu", "Ecat.FmmuGroup", "Corr.C20"]
     technique = "Coq proof (invariant over all map/unmap sequences, induction on the operation list) + differential correspondence with Terminal.map_fmmu"
     trusted = ["Python list slicing/index/negative-index semantics as modelled in Ecat/Fmmu.v (exercised by the correspondence)"]
     assumptions = ["the register writes inside map_fmmu succeed (failure/cancellation paths are covered by C24)",
@@ -324,11 +324,19 @@ class C20(Check):
 
     def model_term(self, case):
         if case.get("kind") == "groups":
-            return None      # whole groups against the bookings: decided by the oracle (the terminal-level steps inside are C20's other cases)
+            opt = lambda v: f"(Some {cz(v)})" if v is not None else "None"      # noqa
+            gops = [f"GMap {cnat(o[1])} {opt(o[4] + 0x800 if o[2] else None)} {opt(o[4] if o[3] else None)}" if o[0] == "gmap" else f"GUnmap {cnat(o[1])}"
+                    for o in case["script"]]
+            return f"(run_groups {cnat(case['n'])} {clist(gops)})"
         # concurrent tasks: the model sees a mapping when its task starts (slot choice and booking are one step) and an
         # unmapping when its last bus write has completed
         ops = [f"Map {cbool(o[1])} {cz(o[2])}" if o[0] == "map" else f"Unmap {cnat(o[1])}" for o in case.get("_mops", case["ops"])]
         return f"(run {cnat(case['n'])} {clist(ops)})"
+
+    def model_value(self, case, o):
+        if case.get("kind") == "groups" and not isinstance(o, Err):
+            return [[{"mapped": 1, "refused": 0, "unmapped": 2}[r], table] for r, table, slots in o]
+        return o
 
     def holds(self, case, o):
         if isinstance(o, Err):
